@@ -67,6 +67,19 @@ pub fn near_misses(name: &str) -> Vec<String> {
         v.push(format!("{}{}", name, c));
         v.push(format!("{}{}", c, name));
     }
+    // truncation twins: the same name with every character moved to a code point that is equal modulo 2^8
+    // (Latin Extended-A, CJK, emoji planes) or modulo 2^16 (supplementary plane), and one character only moved
+    for delta in [0x100u32, 0x4e00, 0x1f600, 0x10000, 0x20000] {
+        let moved: Option<String> = chars.iter().map(|c| char::from_u32(*c as u32 + delta)).collect();
+        if let Some(m) = moved {
+            v.push(m);
+        }
+        if chars.len() > 1 {
+            if let Some(c0) = char::from_u32(chars[0] as u32 + delta) {
+                v.push(std::iter::once(c0).chain(chars[1..].iter().cloned()).collect());
+            }
+        }
+    }
     for pad in [8usize, 15, 16, 17, 31, 32, 33, 64] {
         if pad > chars.len() {
             v.push(format!("{}{}", name, " ".repeat(pad - chars.len())));
@@ -157,8 +170,9 @@ pub fn run(ctx: &mut Ctx) {
         if !ctx.mine() {
             continue;
         }
-        // multi-key objects: the operator name sorts first / last among the keys
-        for k2 in ["\u{1}", "zzzz", "~", "!", "a"] {
+        // multi-key objects: the operator name sorts first / last among the keys; companions that other JSON
+        // dialects treat as annotations or metadata are keys like any other
+        for k2 in ["\u{1}", "zzzz", "~", "!", "a", "$comment", "comment", "//", "#", "_comment", "$schema", "$id", "$ref", "description", "@", "$", "", "_", "__proto__", "type", "id", "meta"] {
             if k2 == name {
                 continue;
             }
@@ -168,6 +182,18 @@ pub fn run(ctx: &mut Ctx) {
             let v = Value::Object(m);
             for d in &ds {
                 must_be_literal(ctx, "multi-key", &v, d);
+            }
+            // the companion holding a plain string (what an annotation would hold), benign operands
+            let mut m = Map::new();
+            m.insert(name.to_string(), Value::Array(crate::spaces::c03::benign(name, 2)));
+            m.insert(k2.to_string(), json!("note"));
+            let v = Value::Object(m);
+            must_be_literal(ctx, "multi-key:string-companion", &v, &ds[2]);
+            // ... and nested in operand positions
+            let host = json!({"if": [true, v.clone(), 0]});
+            let o = ctx.check("multi-key:string-companion:operand", &host, &ds[2]);
+            if o.ok() != Some(&v) {
+                ctx.law_fail("law:literal-identity", &host, &ds[2], format!("Ok({})", v), o.show());
             }
         }
         // two operator names as keys
